@@ -85,3 +85,15 @@ Theorem C07_taper_right_half_refuted :
     taper_factor npx npy true rap t m j = 1.
 Proof. exact taper_right_half_refuted. Qed.
 Print Assumptions C07_taper_right_half_refuted.
+
+(* WingboxGeometry: the mirror image of a wing (y negated, spanwise node order reversed) has, element for
+   element, the same streamwise chord, FEM chord and FEM twist *)
+From OAS Require Import Wingbox WingboxProofs.
+Theorem C07_wingbox_geometry_mirror :
+  forall (nx1 : nat) (m m' : nat -> nat -> nat -> R) (xu0 yu0 yl0 xun yun yln : R) (e e' : nat),
+    mirrored_node nx1 m m' (S e') e -> mirrored_node nx1 m m' e' (S e) ->
+    wg_sw nx1 m' e' = wg_sw nx1 m e /\
+    wg_fem_chord nx1 m' xu0 yu0 yl0 xun yun yln e' = wg_fem_chord nx1 m xu0 yu0 yl0 xun yun yln e /\
+    wg_fem_twist nx1 m' xu0 yu0 yl0 xun yun yln e' = wg_fem_twist nx1 m xu0 yu0 yl0 xun yun yln e.
+Proof. exact wingbox_geometry_mirror. Qed.
+Print Assumptions C07_wingbox_geometry_mirror.
